@@ -161,6 +161,7 @@ def symbolic_for(e, s, st, rng):
     # body
     b = h.fork()
     b.pc.append(iv < stop)
+    b.env['__iter_start__'] = St(dict(b.env), dict(b.heap), b.pc)
     saved_ctx = e.prange_ctx
     saved_hints = e.cur_body_asserts
     e.cur_body_asserts = lspec.body_asserts
